@@ -157,7 +157,7 @@ func applyRemovals(actions []pruneAction, dryRun bool, out io.Writer) error {
 	return errors.Join(errs...)
 }
 
-func indexRepositories(repositories []repositorySpec, opts gitindex.Options, out io.Writer) error {
+func indexRepositories(repositories []repositorySpec, opts gitindex.Options, pendingRemoval map[string]bool, out io.Writer) error {
 	var errs []error
 	for _, repo := range repositories {
 		repoOpts := opts
@@ -170,6 +170,11 @@ func indexRepositories(repositories []repositorySpec, opts gitindex.Options, out
 		if err != nil {
 			errs = append(errs, fmt.Errorf("index %q from %s: %w", repo.Name, repo.Source, err))
 			continue
+		}
+		if repoOpts.DryRun && pendingRemoval[repo.Name] {
+			// The preview announced the removal of the shard of this name but
+			// did not apply it, so the on-disk state must not be trusted.
+			updated = true
 		}
 		if repoOpts.DryRun && updated {
 			fmt.Fprintf(out, "Would index %q from %s\n", repo.Name, repo.Source)
